@@ -219,9 +219,9 @@ class ConfiguredCrop:
     DEFAULTS = {"YldWC": 0.0}
 
     def __init__(self, cfg):
-        from ..config import crop_params
+        from ..config import PRISTINE_CROP_PARAMS
 
-        self._cat = crop_params[cfg["crop"]["name"]]
+        self._cat = PRISTINE_CROP_PARAMS[cfg["crop"]["name"]]   # snapshot taken at import, not the live dictionary
         self._ov = cfg["crop"].get("overrides", {})
 
     def get(self, key):
@@ -239,3 +239,30 @@ def configured_irrigation(cfg):
                SMT=[float(x) for x in r.get("SMT", [100.0] * 4 if m == 1 else [0.0] * 4)], IrrInterval=int(r.get("IrrInterval", 3 if m == 2 else 0)),
                depth=float(r.get("depth", 0.0)), NetIrrSMT=float(r.get("NetIrrSMT", 80.0)), WetSurf=float(r.get("WetSurf", 100.0)))
     return out
+
+
+def configured_profile(cfg, tr):
+    """Per-compartment hydraulic values as CONFIGURED (built-in soil table / custom hydraulic layers); layers given
+    by texture keep the model's (pedotransfer) values.  Falls back to the model's arrays if the number of
+    compartments differs from the configuration (C18's subject)."""
+    from ..refmodel import BUILTIN_SOIL_TABLE
+    from ..refsoil import layer_of_compartments, r2
+
+    p = {k: np.array(v, dtype=float) for k, v in tr.profile.items() if k in ("th_dry", "th_wp", "th_fc", "th_s")}
+    s = cfg["soil"]
+    if s["type"] == "ac_TunisLocal":
+        dz0 = [0.1] * 6 + [0.15] * 5 + [0.2]
+    else:
+        dz0 = [r2(v) for v in s.get("args", {}).get("dz", [0.1] * 12)]
+    if len(dz0) != len(p["th_s"]):
+        return p
+    if s["type"] == "custom":
+        specs = [(l["thickness"], l.get("wp"), l.get("fc"), l.get("sat"), l["kind"] == "hyd") for l in s["layers"]]
+    else:
+        specs = [(t if t is not None else sum(dz0), wp, fc, sat, True) for (t, wp, fc, sat, ks) in BUILTIN_SOIL_TABLE[s["type"]][0]]
+    lay = layer_of_compartments(dz0, [x[0] for x in specs])
+    for i, k in enumerate(lay):
+        if 1 <= k <= len(specs) and specs[k - 1][4]:
+            _, wp, fc, sat, _ = specs[k - 1]
+            p["th_wp"][i], p["th_fc"][i], p["th_s"][i], p["th_dry"][i] = wp, fc, sat, wp / 2.0
+    return p
